@@ -1,7 +1,7 @@
 (* Case operations of the correspondence protocol (harness/PROTOCOL.md), interpreted on the
    model.  Everything the OCaml runner executes goes through [run_op]. *)
 From Coq Require Import Bool ZArith Lia List FMapPositive.
-From K Require Import Model.Machine Model.Bus Model.Cost Model.Addressing Model.Alu Model.Exec Model.Periph Model.Run.
+From K Require Import Model.Machine Model.Bus Model.Cost Model.Addressing Model.Alu Model.Exec Model.Periph Model.Run Model.Elf.
 Import ListNotations.
 Open Scope bool_scope. Open Scope Z_scope.
 
@@ -12,6 +12,7 @@ Inductive op :=
 | OPort (p v : Z)
 | OStep | OStepN (n : Z) | OIrq (v : Z) | OBnd | OInt (v : Z) | OTick (n : Z)
 | ORun (fuel : Z) (script : list (list (list Z)))   (* Cpu::run with a scripted control socket *)
+| OLoad (file args : list Z)                      (* elf::load *)
 | OWr (sz addr v : Z) | ORd (sz addr : Z).   (* 16/32-bit big-endian access through the CPU helpers *)
 
 Inductive res := ROk | ROkV (v : Z) | RErr | RPanic.
@@ -45,6 +46,7 @@ Definition run_op (o : op) (s : cpu) : res * cpu :=
   | OW8 a v => match bus_write (cbus s) a v with Some b => (ROk, set_bus b s) | None => (RErr, s) end
   | OR8 a => (of_opt (bus_read (cbus s) a), s)
   | OPort p v => (ROk, set_bus (write_port (cbus s) p v) s)
+  | OLoad f args => match load f args s with Some s' => (ROk, s') | None => (RPanic, s) end
   | OWr sz a v => match write_abs24 sz a v s with Ok _ s' => (ROk, s') | Err => (RErr, s) | Panic => (RPanic, s) end
   | ORd sz a => match read_abs24 sz a s with Ok v s' => (ROkV v, s') | Err => (RErr, s) | Panic => (RPanic, s) end
   end.
